@@ -60,6 +60,8 @@ func setModel(trackVals bool) porcupine.Model {
 					return o.OK, ""
 				}
 				return !o.OK, s
+			case "has": // presence only (the value is not read)
+				return o.OK == (s != ""), s
 			default: // get, read
 				if s == "" {
 					return !o.OK, s
@@ -243,6 +245,15 @@ func (e *Contend) Run() {
 						rec.out = setOut{OK: ok}
 					default:
 						item := e.db.Item(k, "probe")
+						if lr.Intn(2) == 0 {
+							// plain public-API lookup, no token of our own: only presence is recorded
+							rec.in = setIn{Op: "has"}
+							rec.call = Tick()
+							n := wr.GetNode(item)
+							rec.ret = Tick()
+							rec.out = setOut{OK: n != nil}
+							break
+						}
 						rec.in = setIn{Op: "get"}
 						tok := e.db.N.VerifStore().GetAccesBarrier().Acquire() // keep the node valid while we read its value
 						rec.call = Tick()
@@ -307,6 +318,9 @@ func (e *Contend) Run() {
 			if f.OK {
 				present++
 			}
+		}
+		if s.Count() != int64(len(got)) {
+			e.problem("C01", "count-vs-scan", "phase %d: Count()=%d but a full scan of the same snapshot yields %d items", ph, s.Count(), len(got))
 		}
 		if s.Count() != int64(present+others) {
 			e.problem("C03", "count", "phase %d: Count()=%d but the snapshot taken after quiescence contains %d keys", ph, s.Count(), present+others)
